@@ -117,6 +117,8 @@ func signedMessage(r *rng, key []byte, nBefore, nAfter int, withMI, fp bool) []b
 	return append([]byte(nil), m.Raw...)
 }
 
+var credAlphabet = []byte("ab%:s d%v\x00\xc3\xa9%%")
+
 func runC04(o *out, thorough bool, r *rng, _ []string) map[string]interface{} {
 	nmsg := 30
 	if thorough {
@@ -127,9 +129,18 @@ func runC04(o *out, thorough bool, r *rng, _ []string) map[string]interface{} {
 		key := r.bytes(keyLens[i%len(keyLens)])
 		if i%7 == 3 { // long-term key
 			u, re, p := r.bytes(r.intn(12)), r.bytes(r.intn(12)), r.bytes(r.intn(12))
-			for _, b := range [][]byte{u, re, p} {
-				for k := range b {
-					b[k] = 'a' + b[k]%26
+			// SASLprep is the caller's business: any byte may occur, '%' and ':' included
+			if i%14 == 3 {
+				for _, b := range [][]byte{u, re, p} {
+					for k := range b {
+						b[k] = credAlphabet[int(b[k])%len(credAlphabet)]
+					}
+				}
+			} else {
+				for _, b := range [][]byte{u, re, p} {
+					for k := range b {
+						b[k] = 'a' + b[k]%26
+					}
 				}
 			}
 			o.run(401, []string{fHex(u), fHex(re), fHex(p)}, true)
@@ -179,7 +190,7 @@ func runC04(o *out, thorough bool, r *rng, _ []string) map[string]interface{} {
 		}
 		data := append(header(0x0001, len(body), r.bytes(12)), body...)
 		// sometimes make the first 20-byte MAC correct by construction
-		if ml == 20 && r.chance(1, 2) {
+		if ml > 0 && r.chance(2, 3) {
 			off := 20
 			for off < len(data) && !(data[off] == 0 && data[off+1] == 8) {
 				al := int(data[off+2])<<8 | int(data[off+3])
@@ -190,17 +201,42 @@ func runC04(o *out, thorough bool, r *rng, _ []string) map[string]interface{} {
 			pre[2], pre[3] = byte(nl>>8), byte(nl)
 			mac := hmac.New(sha1.New, key)
 			mac.Write(pre)
-			copy(data[off+4:], mac.Sum(nil))
+			sum := mac.Sum(nil)
+			if ml < 20 {
+				sum = sum[:ml] // a truncated but otherwise correct MAC must be refused
+			}
+			copy(data[off+4:off+4+ml], sum)
+			o.count(fmt.Sprintf("crafted-mac-prefix:len=%d", ml))
 		}
 		checkCase(o, r, 6, data, key, "crafted-mac")
 	}
 	signAfterDecode(o, r, true, 120)
+	lengthSweep(o, r, true)
 	// signing is refused after FINGERPRINT (history through cmd 301)
 	for i := 0; i < 40; i++ {
 		g := &histGen{r: r}
 		fs := append(g.start(0), numsField(1, 3), numsField(1, 1, 0), numsField(11), withBytes([]int{10}, r.bytes(r.intn(30))))
 		o.run(301, fs, true)
 		o.count("mi-after-fp")
+		// FINGERPRINT followed by further attributes (built, or decoded with bytes after the message)
+		fs = append(g.start(0), numsField(1, 4), numsField(1, 1, 0), numsField(11), withBytes([]int{3, 0x8030}, r.bytes(r.intn(9))),
+			withBytes([]int{10}, r.bytes(r.intn(30))))
+		o.run(301, fs, true)
+		var body []byte
+		for k := r.intn(3); k > 0; k-- {
+			body = append(body, r.tlv(0x8030, r.bytes(k), k)...)
+		}
+		body = append(body, r.tlv(0x8028, r.bytes(4), 4)...)
+		for k := r.rangeIn(1, 3); k > 0; k-- {
+			body = append(body, r.tlv(0x8031, r.bytes(k+2), k+2)...)
+		}
+		data := append(append(header(0x0001, len(body), r.bytes(12)), body...), r.bytes(r.pick([]int{0, 0, 3, 8}))...)
+		o.run(301, []string{"0", "-", fHex(data), "7," + withBytes([]int{10}, r.bytes(r.intn(30)))}, true)
+		o.count("mi-after-fp-not-last")
+	}
+	// explicit 401 cases with format verbs and separators in the credentials
+	for _, c := range [][3]string{{"%s", "realm", "pass"}, {"user", "%d%%", "p"}, {"a:b", "c", "d"}, {"u", "r", "%!x(MISSING)"}, {"%v%v", "%", "%%"}, {"", "", ""}} {
+		o.run(401, []string{fHex([]byte(c[0])), fHex([]byte(c[1])), fHex([]byte(c[2]))}, true)
 	}
 	return nil
 }
@@ -238,6 +274,7 @@ func runC05(o *out, thorough bool, r *rng, _ []string) map[string]interface{} {
 		}
 	}
 	signAfterDecode(o, r, false, 300)
+	lengthSweep(o, r, false)
 	// arbitrary decodable messages containing FINGERPRINT attributes of any length and position
 	n := 800
 	if thorough {
@@ -255,9 +292,15 @@ func runC05(o *out, thorough bool, r *rng, _ []string) map[string]interface{} {
 			// make the value of the first 4-byte FINGERPRINT correct by construction
 			for off := 20; off+8 <= len(data); {
 				al := int(data[off+2])<<8 | int(data[off+3])
-				if data[off] == 0x80 && data[off+1] == 0x28 && al == 4 {
+				if data[off] == 0x80 && data[off+1] == 0x28 && al > 0 {
+					// also for values that are too short or too long: a correct CRC prefix in a
+					// FINGERPRINT of the wrong size must still be refused
 					v := crc32.ChecksumIEEE(data[:len(data)-8]) ^ 0x5354554e
-					data[off+4], data[off+5], data[off+6], data[off+7] = byte(v>>24), byte(v>>16), byte(v>>8), byte(v)
+					vb := []byte{byte(v >> 24), byte(v >> 16), byte(v >> 8), byte(v)}
+					for k := 0; k < 4 && k < al; k++ {
+						data[off+4+k] = vb[k]
+					}
+					o.count(fmt.Sprintf("crafted-crc-prefix:len=%d", al))
 					break
 				}
 				off += 4 + pad4(al)
@@ -308,6 +351,52 @@ func signAfterDecode(o *out, r *rng, useMI bool, n int) {
 		o.count(fmt.Sprintf("sign-after-decode:junk=%d", len(junk)))
 		if derr != nil || cerr != nil {
 			o.fail("signed-message-does-not-verify", fmt.Sprintf("301 0 - %s %s trailing=%d", fHex(data), op, len(junk)))
+		}
+	}
+}
+
+// lengthSweep: SYSTEMATIC over the body length before signing: every multiple of 4 from 0 to 1100 (both
+// bytes of the header length field change, with and without carry), signed / fingerprinted by the
+// library through a history (model comparison) and verified by the library and the RFC oracle.
+func lengthSweep(o *out, r *rng, useMI bool) {
+	for l := 0; l <= 1100; l += 4 {
+		var body []byte
+		if l >= 4 {
+			body = r.tlv(0x8030, r.bytes(l-4), l-4)
+		}
+		data := append(header(0x0001, len(body), r.bytes(12)), body...)
+		key := r.bytes(1 + r.intn(24))
+		op := numsField(7, 11)
+		if useMI {
+			op = "7," + withBytes([]int{10}, key)
+		}
+		o.run(301, []string{"0", "-", fHex(data), op}, true)
+		o.count("length-sweep")
+		m := new(stun.Message)
+		if stun.Decode(data, m) != nil {
+			o.fail("sweep-message-does-not-decode", fmt.Sprintf("301 0 - %s %s", fHex(data), op))
+			continue
+		}
+		var cerr error
+		if useMI {
+			_ = stun.MessageIntegrity(key).AddTo(m)
+		} else {
+			_ = stun.Fingerprint.AddTo(m)
+		}
+		d := new(stun.Message)
+		derr := stun.Decode(m.Raw, d)
+		ok := false
+		if derr == nil {
+			if useMI {
+				cerr = stun.MessageIntegrity(key).Check(d)
+				_, ok = rfcIntegrityVerdict(m.Raw, key)
+			} else {
+				cerr = stun.Fingerprint.Check(d)
+				_, ok = rfcFingerprintVerdict(m.Raw)
+			}
+		}
+		if derr != nil || cerr != nil || !ok {
+			o.fail("signed-message-does-not-verify", fmt.Sprintf("301 0 - %s %s body=%d", fHex(data), op, l))
 		}
 	}
 }
